@@ -545,6 +545,19 @@ Proof. unfold live. intros H E. rewrite E in H. discriminate. Qed.
 
 Ltac state_eq := repeat match goal with H : (_ =? _) = true |- _ => apply Z.eqb_eq in H end.
 
+Definition with_sk (w : world) (s : sock) : world := mkW s (pfx w) (keys w) (evs w) (opens w) (sends w) (now w) (out w).
+Definition with_out (w : world) (o : list titem) : world := mkW (sk w) (pfx w) (keys w) (evs w) (opens w) (sends w) (now w) o.
+Lemma hoare_set_sk {B} w s (f : unit -> world -> res B) (Q : B -> world -> Prop) (QX : world -> Prop) :
+  hoare (f tt) (with_sk w s) Q QX -> hoare (bind (set_sk s) f) w Q QX.
+Proof. intros H. exact H. Qed.
+Lemma hoare_emit {B} w t (f : unit -> world -> res B) (Q : B -> world -> Prop) (QX : world -> Prop) :
+  hoare (f tt) (with_out w (t :: out w)) Q QX -> hoare (bind (emit t) f) w Q QX.
+Proof. intros H. exact H. Qed.
+Lemma F_with_sk w s : st s = st (sk w) -> F w (with_sk w s).
+Proof. intros H. unfold with_sk. ffin. rewrite H. auto. Qed.
+Lemma F_with_out w o : F w (with_out w o).
+Proof. unfold with_out. ffin. Qed.
+
 (* C08_no_stutter *)
 Theorem no_stutter f w : live w ->
   hoare (fsm_step (S f)) w (fun _ w' => now w' = now w -> (measure w' < measure w)%nat) (prog w).
@@ -553,9 +566,8 @@ Proof.
   unfold fsm_step. apply hoare_get_sk. cbv zeta.
   destruct (st (sk w) =? c_RTR_CONNECTING) eqn:E0.
   { (* CONNECTING: an entry of the open script is consumed *)
-    unfold bind at 1, set_sk.
-    match goal with |- hoare _ ?w1 _ _ => set (w1' := w1) end.
-    assert (HF1 : F w w1') by (subst w1'; ffin).
+    apply hoare_set_sk. set (w1' := with_sk w _).
+    assert (HF1 : F w w1') by (apply F_with_sk; reflexivity).
     destruct (purge_outdated_eq w1') as (w2 & E2 & _ & _ & HF2).
     unfold hoare, bind at 1. rewrite E2.
     unfold bind at 1, tr_open. destruct (opens w2) as [|b r] eqn:Eo; [exact I|].
@@ -616,39 +628,37 @@ Proof.
       + destruct (q =? 0) eqn:Eq0; [apply Z.eqb_eq in Eq0; contradiction|]. unfold ret. intros _.
         apply F_rank_measure; [eapply F_trans; eauto|]. rewrite Hs2, E3. cbn. lia. }
   destruct (st (sk w) =? c_RTR_FAST_RECONNECT) eqn:E4.
-  { state_eq. unfold bind at 1, tr_close, emit.
-    match goal with |- hoare _ ?w1 _ _ => set (w1' := w1) end.
+  { state_eq. unfold tr_close. apply hoare_emit. set (w1' := with_out w _).
     destruct (change_state_eq c_RTR_CONNECTING w1' Hns) as (w2 & Ec & Hs2 & _ & HF2).
     unfold hoare. rewrite Ec. intros _. apply F_rank_measure.
-    - eapply F_trans; [|apply HF2; reflexivity]. subst w1'. ffin.
+    - eapply F_trans; [|apply HF2; reflexivity]. apply F_with_out.
     - rewrite Hs2, E4. cbn. lia. }
   destruct (st (sk w) =? c_RTR_ERROR_NO_DATA_AVAIL) eqn:E5.
-  { state_eq. unfold bind at 1, set_sk.
-    match goal with |- hoare _ ?w1 _ _ => set (w1' := w1) end.
-    destruct (change_state_eq c_RTR_RESET w1' Hns) as (w2 & Ec & Hs2 & _ & HF2).
+  { state_eq. apply hoare_set_sk. set (w1' := with_sk w _).
+    assert (Hns1 : st (sk w1') <> c_RTR_SHUTDOWN) by exact Hns.
+    destruct (change_state_eq c_RTR_RESET w1' Hns1) as (w2 & Ec & Hs2 & _ & HF2).
     unfold hoare, bind at 1. rewrite Ec. unfold bind at 1, do_sleep.
     match goal with |- match purge_outdated ?w3 with _ => _ end => set (w3' := w3) end.
     destruct (purge_outdated_eq w3') as (w4 & E4' & Hs4 & _ & HF4). rewrite E4'. intros _.
     apply F_rank_measure.
-    - eapply F_trans; [|exact HF4]. eapply F_trans; [|subst w3'; ffin; apply (proj2 (HF2 eq_refl))].
-      subst w1'. ffin.
+    - eapply F_trans; [apply (F_with_sk w); reflexivity|]. fold w1'.
+      eapply F_trans; [apply HF2; reflexivity|]. eapply F_trans; [|exact HF4]. subst w3'. ffin.
     - rewrite Hs4. subst w3'. sk_simpl. rewrite Hs2, E5. cbn. lia. }
   destruct (st (sk w) =? c_RTR_ERROR_NO_INCR_UPDATE_AVAIL) eqn:E6.
-  { state_eq. unfold bind at 1, set_sk.
-    match goal with |- hoare _ ?w1 _ _ => set (w1' := w1) end.
-    destruct (change_state_eq c_RTR_RESET w1' Hns) as (w2 & Ec & Hs2 & _ & HF2).
+  { state_eq. apply hoare_set_sk. set (w1' := with_sk w _).
+    assert (Hns1 : st (sk w1') <> c_RTR_SHUTDOWN) by exact Hns.
+    destruct (change_state_eq c_RTR_RESET w1' Hns1) as (w2 & Ec & Hs2 & _ & HF2).
     unfold hoare, bind at 1. rewrite Ec.
     destruct (purge_outdated_eq w2) as (w4 & E4' & Hs4 & _ & HF4). rewrite E4'. intros _.
     apply F_rank_measure.
-    - eapply F_trans; [|exact HF4]. eapply F_trans; [|apply HF2; reflexivity]. subst w1'. ffin.
+    - eapply F_trans; [|exact HF4]. eapply F_trans; [|apply HF2; reflexivity]. apply F_with_sk. reflexivity.
     - rewrite Hs4, Hs2, E6. cbn. lia. }
   destruct ((st (sk w) =? c_RTR_ERROR_TRANSPORT) || (st (sk w) =? c_RTR_ERROR_FATAL)) eqn:E7.
-  { unfold bind at 1, tr_close, emit.
-    match goal with |- hoare _ ?w1 _ _ => set (w1' := w1) end.
+  { unfold tr_close. apply hoare_emit. set (w1' := with_out w _).
     destruct (change_state_eq c_RTR_CONNECTING w1' Hns) as (w2 & Ec & Hs2 & _ & HF2).
     unfold hoare, bind at 1. rewrite Ec. unfold do_sleep. intros _.
     apply F_rank_measure.
-    - eapply F_trans; [subst w1'; ffin|]. eapply F_trans; [apply HF2; reflexivity|]. ffin.
+    - eapply F_trans; [apply F_with_out|]. eapply F_trans; [apply HF2; reflexivity|]. ffin.
     - sk_simpl. rewrite Hs2. apply orb_true_iff in E7. destruct E7 as [E7|E7]; apply Z.eqb_eq in E7; rewrite E7; cbn; lia. }
   (* no other state is live *)
   exfalso. apply orb_false_iff in E7. destruct E7 as [E7 E8].
